@@ -1416,11 +1416,24 @@ func putBody(ws []write) []byte {
 		if i > 0 {
 			b.WriteByte(',')
 		}
-		fmt.Fprintf(&b, `{"aid":%d,"iid":%d,"value":%s}`, x.r.aid, x.r.iid, x.raw)
+		// every third entry for a characteristic that notifies carries the subscription together with the value (both
+		// members are optional and independent: the value is written AND the subscription changed)
+		ev := ""
+		if putEntries++; putEntries%3 == 0 && x.r.c != nil && x.r.c.ch.IsObservable() {
+			ev = []string{`,"ev":true`, `,"ev":false`}[putEntries/3%2]
+			run.Count("write_entries_that_also_carry_a_subscription", 1)
+		}
+		if ev != "" && putEntries%2 == 0 {
+			fmt.Fprintf(&b, `{"aid":%d,"iid":%d%s,"value":%s}`, x.r.aid, x.r.iid, ev, x.raw)
+		} else {
+			fmt.Fprintf(&b, `{"aid":%d,"iid":%d,"value":%s%s}`, x.r.aid, x.r.iid, x.raw, ev)
+		}
 	}
 	b.WriteString(`]}`)
 	return b.Bytes()
 }
+
+var putEntries int
 
 // put writes the entries in one request and checks getter, callback and answer.
 func (w *world) put(ci int, ws []write) {
@@ -2191,6 +2204,7 @@ func main() {
 	r.Floor("formats", len(formatsSeen()), 7)
 	r.Floor("entries_without_a_value_checked", int(r.Counter("entries_without_a_value_checked")), 100)
 	r.Floor("answers_abandoned_by_a_third_connection", int(r.Counter("answers_abandoned_by_a_third_connection")), 40)
+	r.Floor("write_entries_that_also_carry_a_subscription", int(r.Counter("write_entries_that_also_carry_a_subscription")), 200)
 	r.Floor("write_requests_sent_in_chunked_encoding", int(r.Counter("write_requests_sent_in_chunked_encoding")), 200)
 	r.Count("float_values_next_to_the_current_value", int(floatNeighbours.Load()))
 	r.Floor("float_values_next_to_the_current_value", int(floatNeighbours.Load()), 30)
